@@ -17,6 +17,11 @@ panel drops after any number of bytes, byte arrivals, `msgsToPanel` traffic, a p
 `ae = false` is the pinned wait-group accounting (`wg.Add(1)` inside the goroutine), `ae = true` the repaired one
 (`wg.Add(1)` before `go`).  Unless stated otherwise a theorem holds for both.
 
+Section 3 also ties the numbers: `constants_are_those_of_the_monitor` (the default retry periods, the probe deadline
+and the ASCII loop's EOF sleep regenerated from the source are the numbers `Spec/LifecycleSpec.lean` uses — the monitor never
+reads them from the code, so a changed default breaks this obligation) and `model_periods_are_the_monitors` (for every
+configuration the model's periods are the monitor's).
+
 Sections: (1) callbacks, (2) deliveries and drop offsets, (3) retry periods on the clock, (4) sockets, writers and the
 wait group, (5) return after cancellation, (6) reconnect after a loss, (7) the writer's data path, (8) non-vacuity.
 Declared assumptions that show up as hypotheses or as "waiting" states: `net.Dial` answers (no dial timeout in the code;
@@ -197,6 +202,23 @@ theorem periods_are_the_configured_ones (ae : Bool) (cfgNc cfgRc : Nat) (ls : Li
   rw [this.2]
   simp only [initCfg, initWith, effNc]
   split <;> simp [Gen.clientNoConnRetryDefaultS] <;> omega
+
+/-- **the numbers of the monitor are the numbers of the source**: the default retry periods found in
+`ConnectToPanel` on this run (`noConnectionRetryPeriod := 3`, `reConnectionRetryPeriod := 1`), the probe deadline and the
+ASCII loop's sleep after EOF are the numbers `Spec/LifecycleSpec.lean` uses for "the configured (or default) retry
+period" and for its bound on the return after cancellation.  The monitor never reads them from the code: a changed
+default in the source breaks this obligation instead of shifting the monitor. -/
+theorem constants_are_those_of_the_monitor :
+    Gen.clientNoConnRetryDefaultS = Spec.Lifecycle.defaultNoConnRetry
+    ∧ Gen.clientReconnRetryDefaultS = Spec.Lifecycle.defaultReconnRetry
+    ∧ Gen.clientProbeTimeoutMs = Spec.Lifecycle.probeMs
+    ∧ Gen.clientAsciiEofSleepMs = Spec.Lifecycle.eofSleepMs := by decide
+
+/-- hence the periods of the model (`initCfg`, lines 36-45) are the periods the monitor demands, for every
+configuration (0 = not configured) -/
+theorem model_periods_are_the_monitors (cfgNc cfgRc : Nat) :
+    (initCfg cfgNc cfgRc).nc = Spec.Lifecycle.ncMs { nc := cfgNc, rc := cfgRc }
+    ∧ (initCfg cfgNc cfgRc).rc = Spec.Lifecycle.rcMs { nc := cfgNc, rc := cfgRc } := ⟨rfl, rfl⟩
 
 /-- DOCUMENTED BEHAVIOUR (connecttopanel.go 61-68): the no-connection wait ends by its timer, by cancellation — or
 at once by ANY list arriving on `msgsToPanel`, which the main loop drains and discards there; nothing else ends
@@ -601,6 +623,9 @@ example : blockedOnConsumer.phase = .connected ∧ blockedOnConsumer.consumer = 
     ∧ blockedOnConsumer.conns.map (·.held) = [true]
     ∧ (run true blockedOnConsumer [.consumerResume, .deliver, .readErr, .closeQuit, .connClose, .onDisconnect true, .ret]).map
         (fun s => (s.phase, s.conns.map (·.delivered), s.wg)) = some (.returned, [1], 0) := by decide
+
+/-- `model_periods_are_the_monitors`: nil config, and 2 s / default -/
+example : Spec.Lifecycle.ncMs {} = 3000 ∧ Spec.Lifecycle.rcMs {} = 1000 ∧ Spec.Lifecycle.ncMs { nc := 2 } = 2000 := by decide
 
 /-- `periods_are_the_configured_ones`: config {NoConnectionRetryPeriod: 2} and the default reconnection period -/
 example : (run true (initCfg 2 0) [.dialFail]).map (fun s => (s.nc, s.rc, s.wake)) = some (2000, 1000, 2000) := by decide
